@@ -1501,12 +1501,14 @@ def check_decodef(ctx, batch, cases):
     qk = case.get('qk_norm', False)
     params = _mha_params(F, H, D, case['pseed'], integer=False, qk_norm=qk)
     tol = TOL
-    if qk:  # the inputs are part of the case: an ill-conditioned LayerNorm falls back to normalize_qk=False (counted)
-      got, cond = _qk_wellconditioned_inputs(ctx, params, D, lambda a: (x,), 'decode', attempts=1)
+    if qk:  # judged only on well-conditioned inputs (regenerated if needed; all attempts bad: normalize_qk=False, counted)
+      mk = lambda a: (x if a == 0 else np.random.default_rng(case['pseed'] + 7919 * a).uniform(-1.5, 1.5, x.shape).astype(np.float32),)
+      got, cond = _qk_wellconditioned_inputs(ctx, params, D, mk, 'decode')
       if got is None:
         qk = False
         params = _mha_params(F, H, D, case['pseed'], integer=False, qk_norm=False)
       else:
+        x = got[0]
         tol = TOL + 2 * cond['obound']
     user = None if case['user'] is None else np.array(case['user'], np.float32)  # [T,B,L]
     bias = rs.normal(0, 1, (T, B, H, T)).astype(np.float32) if case['use_bias'] else None
@@ -1826,6 +1828,11 @@ def run(ctx):
     for c in cases[:1]:
       ctx.sample(_abbrev(c), cap=len(SECTIONS))
   ctx.extra['section_wall_s'] = timing
+  ctx.extra.setdefault('skipped_ill_conditioned', 0)
+  ctx.extra['qk_norm_tolerance_rule'] = (
+    'normalize_qk comparisons: float64 reference; tolerance = 1e-5 + first-order float32 rounding bound of the case '
+    f'(LayerNorm fast-variance cancellation propagated through rsqrt, logits, softmax, output projection); a case is used only '
+    f'if the bound is <= {QK_WCAP} on weights and <= {QK_OCAP} on outputs, otherwise inputs are regenerated (6 attempts) or the case is skipped')
   ctx.extra['driver_calls'] = drv.calls
   ctx.extra['exhaustive'] = False
   ctx.extra['exhaustive_scope'] = 'flip_sequences: every T<=4 (5 thorough) x every seq_length in [1,T] x {batch-major,time-major} x {Linen,NNX}; make_causal_mask: every n<=6'
